@@ -166,3 +166,26 @@ Definition located_eqb (a b : located) : bool :=
 
 Definition outs_eqb : list (option (list N)) -> list (option (list N)) -> bool :=
   list_eqb (opt_eqb (list_eqb N.eqb)).
+
+(* ------------------------------------------------------------------ the flowtable object (felix/nftables/table.go) *)
+(* slices.Compact: drop consecutive duplicates *)
+Fixpoint compact (l : list N) : list N :=
+  match l with
+  | [] => []
+  | x :: l' => match l' with
+               | [] => [x]
+               | y :: _ => if N.eqb x y then compact l' else x :: compact l'
+               end
+  end.
+(* recalcFlowtableDevices: overlay ++ workload ++ external, sort.Strings, slices.Compact.  Device names are numbers whose
+   order is the string order of the names (the driver numbers its device universe in string order). *)
+Definition recalc_flowtable_devices (ovl wl ext : list N) : list N := compact (sortN (ovl ++ wl ++ ext)).
+(* pruneToExistingDevices with a working interface lister: keep the devices the kernel has, in order *)
+Definition prune_to_existing (existing devices : list N) : list N :=
+  filter (fun d => existsb (N.eqb d) existing) devices.
+(* the devices of the flowtable object Apply() writes after the three setters were called *)
+Definition ft_devices (ovl wl ext existing : list N) : list N :=
+  prune_to_existing existing (recalc_flowtable_devices ovl wl ext).
+(* enableFlowtable: the first setter call turns offload on for the table; Apply() then creates the flowtable object even
+   with an empty device list, so the FORWARD rule that names it never dangles *)
+Definition ft_declared_after_apply (setter_called : bool) : bool := setter_called.
